@@ -242,7 +242,7 @@ func genAction(c *sim.Ctx, cfg genCfg, names []string, guard bool) *ref.Action {
 			}
 		case k == 12:
 			if cfg.failOps {
-				a.Ops = append(a.Ops, ref.Op{Kind: []string{"retbad", "retbad", "retarr", "retfn", "retdate", "retgetter", "retcyclic", "throwbare", "throwhostile", "throwplain", "throwarr"}[c.Intn(11, "badkind")]})
+				a.Ops = append(a.Ops, ref.Op{Kind: []string{"retbad", "retbad", "retarr", "retfn", "retdate", "retgetter", "retcyclic", "throwbare", "throwhostile", "throwplain", "throwarr", "retzero", "retfalse", "retempty"}[c.Intn(14, "badkind")]})
 			}
 		case k == 13:
 			if cfg.failOps && !a.Native {
@@ -462,6 +462,12 @@ func renderJS(a *ref.Action) string {
 			sb.WriteString("return 42;\n")
 		case "retarr":
 			sb.WriteString("return [1];\n")
+		case "retzero":
+			sb.WriteString("return 0;\n")
+		case "retfalse":
+			sb.WriteString("return false;\n")
+		case "retempty":
+			sb.WriteString("return \"\";\n")
 		case "retfn":
 			sb.WriteString("return function() { return 1; };\n")
 		case "setundef":
@@ -607,7 +613,7 @@ func nativeAction(a *ref.Action) *core.FuncAction {
 				}
 			case "throw":
 				return nil, errors.New("boom")
-			case "retbad", "retarr", "retfn", "retdate", "retgetter", "retcyclic", "throwbare", "throwhostile", "throwplain", "throwarr":
+			case "retbad", "retarr", "retfn", "retdate", "retgetter", "retcyclic", "throwbare", "throwhostile", "throwplain", "throwarr", "retzero", "retfalse", "retempty":
 				return nil, fmt.Errorf("42 (int64) isn't Bindings")
 			case "retnull":
 				return exe, nil
